@@ -32,7 +32,22 @@ static int run(const char *kind, int n, int k) {
     if (fabs(total - tot * 0.5) > 8 * sqrt(tot * 0.25)) { printf("%s n=%d k=%d: pooled %ld ones in %.0f coefficients\n", kind, n, k, total, tot); return 1; }
     return 0;
 }
+// re-seeding: after ANY number of earlier draws, the same seed gives the same gaussian samples and the same ciphertexts
+static int reseed() {
+    LweParams *lp = new_LweParams(16, 0.001, 0.1); LweKey *K = new_LweKey(lp); uint32_t s0[2] = {5, 6}; tfhe_random_generator_setSeed(s0, 2); lweKeyGen(K);
+    LweSample *c1 = new_LweSample(lp), *c2 = new_LweSample(lp);
+    for (int pre = 0; pre <= 3; pre++) {
+        uint32_t sd[2] = {11, 22};
+        tfhe_random_generator_setSeed(sd, 2); Torus32 g1[4]; for (int i = 0; i < 4; i++) g1[i] = gaussian32(0, 0.01); lweSymEncrypt(c1, 12345, 0.001, K);
+        for (int i = 0; i < pre; i++) (void)gaussian32(0, 0.01);             // an odd or even number of further draws
+        tfhe_random_generator_setSeed(sd, 2); Torus32 g2[4]; for (int i = 0; i < 4; i++) g2[i] = gaussian32(0, 0.01); lweSymEncrypt(c2, 12345, 0.001, K);
+        if (memcmp(g1, g2, sizeof g1)) { printf("re-seeding after %d extra gaussian draw(s): the same seed gives different gaussian samples\n", pre); return 1; }
+        if (c1->b != c2->b || memcmp(c1->a, c2->a, 16 * sizeof(Torus32))) { printf("re-seeding after %d extra gaussian draw(s): the same seed gives a different ciphertext\n", pre); return 1; }
+    }
+    return 0;
+}
 int main(int argc, char **argv) {
+    if (argc > 1 && !strcmp(argv[1], "reseed")) return reseed();
     const char *kind = argc > 1 ? argv[1] : "lwe";
     if (!strcmp(kind, "lwe")) return run(kind, 630, 1) || run(kind, 37, 1);
     return run(kind, 1024, 1) || run(kind, 64, 2) || run(kind, 33, 3);
